@@ -39,7 +39,9 @@ fn extract5(a: &Allocator, n: NodePtr) -> Option<[NodePtr; 5]> {
 /// arguments), of every spend's puzzle, and of the ROM
 pub struct Oracle { pub prog_plain: Vec<u8>, pub gen: Option<(u64, Vec<u8>)>, pub gen_rom: Option<(u64, Vec<u8>)>, pub puz: Vec<String>, pub rom: Option<(u64, Vec<u8>)> }
 
-const MAX_ORACLE_BYTES: usize = 150_000;
+/// largest plain serialisation shipped on a case line (raised only for the shared-subtree case of C09)
+static ORACLE_LIMIT: std::sync::atomic::AtomicUsize = std::sync::atomic::AtomicUsize::new(150_000);
+fn oracle_limit() -> usize { ORACLE_LIMIT.load(std::sync::atomic::Ordering::Relaxed) }
 
 /// `None` = this case cannot be expressed on a case line (outputs too large to ship); skipped
 pub fn oracle(program: &[u8], refs: &[Vec<u8>], flags: u32) -> Option<Oracle> {
@@ -47,14 +49,13 @@ pub fn oracle(program: &[u8], refs: &[Vec<u8>], flags: u32) -> Option<Oracle> {
     let dialect = ChiaDialect::new(f.to_clvm_flags());
     let mut a = make_allocator(f);
     let prog = node_from_bytes_backrefs(&mut a, program).ok()?;
-    let prog_plain = node_to_bytes(&a, prog).ok()?;
-    if prog_plain.len() > MAX_ORACLE_BYTES { return None; }
+    let prog_plain = node_to_bytes_limit(&a, prog, oracle_limit()).ok()?;
     // generator run with the ROM's arguments (deserializer (refs…)): also what the native path passes unless SIMPLE_GENERATOR
     let full_args = setup_generator_args(&mut a, refs.iter(), f & !ConsensusFlags::SIMPLE_GENERATOR).ok()?;
     let mut gen_rom = None; let mut puz = vec![];
     let mut out_node = None;
     if let Ok(Reduction(c, out)) = run_program(&mut a, &dialect, prog, full_args, BIG) {
-        let ob = node_to_bytes_limit(&a, out, MAX_ORACLE_BYTES).ok()?;
+        let ob = node_to_bytes_limit(&a, out, oracle_limit()).ok()?;
         gen_rom = Some((c, ob)); out_node = Some(out);
     }
     // the native path's own run differs only under SIMPLE_GENERATOR (nil arguments; refs are refused)
@@ -64,7 +65,7 @@ pub fn oracle(program: &[u8], refs: &[Vec<u8>], flags: u32) -> Option<Oracle> {
         if refs.is_empty() {
             let nil = a.nil();
             if let Ok(Reduction(c, out)) = run_program(&mut a, &dialect, prog, nil, BIG) {
-                let ob = node_to_bytes_limit(&a, out, MAX_ORACLE_BYTES).ok()?;
+                let ob = node_to_bytes_limit(&a, out, oracle_limit()).ok()?;
                 gen = Some((c, ob)); out_node = Some(out);
             }
         }
@@ -80,7 +81,7 @@ pub fn oracle(program: &[u8], refs: &[Vec<u8>], flags: u32) -> Option<Oracle> {
                 match extract5(&a, spend) {
                     None => puz.push("X".to_string()),
                     Some([_, puzzle, _, solution, _]) => match run_program(&mut a, &dialect, puzzle, solution, BIG) {
-                        Ok(Reduction(c, conds)) => { let b = node_to_bytes_limit(&a, conds, MAX_ORACLE_BYTES).ok()?; puz.push(format!("{}:{}", c, hex::encode(b))) }
+                        Ok(Reduction(c, conds)) => { let b = node_to_bytes_limit(&a, conds, oracle_limit()).ok()?; puz.push(format!("{}:{}", c, hex::encode(b))) }
                         Err(_) => puz.push("E".into()),
                     },
                 }
@@ -99,7 +100,7 @@ pub fn oracle(program: &[u8], refs: &[Vec<u8>], flags: u32) -> Option<Oracle> {
     let args = a2.new_pair(args, nil).ok()?;
     let args = a2.new_pair(prog2, args).ok()?;
     let romr = match run_program(&mut a2, &dialect, rom, args, BIG) {
-        Ok(Reduction(c, out)) => Some((c, node_to_bytes_limit(&a2, out, MAX_ORACLE_BYTES).ok()?)),
+        Ok(Reduction(c, out)) => Some((c, node_to_bytes_limit(&a2, out, oracle_limit()).ok()?)),
         Err(_) => None,
     };
     Some(Oracle { prog_plain, gen, gen_rom, puz, rom: romr })
@@ -467,7 +468,8 @@ pub fn c09_case(o: &mut Out, program: &[u8], flags: u32) {
     let rebuild = match &cs {
         Ok(v) => {
             let g = solution_generator(v.iter().map(|c| (c.coin, c.puzzle_reveal.as_ref().to_vec(), c.solution.as_ref().to_vec()))).unwrap_or_default();
-            match run_block_generator2(&g, refs.iter(), 11_000_000_000, f & !ConsensusFlags::SIMPLE_GENERATOR, &Signature::default(), None, &TEST_CONSTANTS) {
+            // (limit far above the block limit: the plain re-serialisation may be much longer than the original)
+            match run_block_generator2(&g, refs.iter(), 1_000_000_000_000_000, f & !ConsensusFlags::SIMPLE_GENERATOR, &Signature::default(), None, &TEST_CONSTANTS) {
                 Ok((a2, c2)) => { let o2 = OwnedSpendBundleConditions::from(&a2, c2);
                     // same conditions: compare spends (cost differs with the serialization)
                     let a: Vec<String> = owned.spends.iter().map(|s| { let mut t = s.clone(); t.execution_cost = 0; spend_s(&t) }).collect();
@@ -494,7 +496,34 @@ pub fn c09_case(o: &mut Out, program: &[u8], flags: u32) {
         } else { ok = false; } } else { ok = false; }
         if ok { "found" } else { "MISSING" }
     };
+    // marker computed from the INPUT: some puzzle reveal or solution whose plain serialisation exceeds the
+    // 2 MB limit of `Program::from_clvm` (recognises the recorded finding)
+    let mut line = line;
+    if let Some((_, ob)) = &orc.gen { let mut a = Allocator::new(); if let Ok(out) = node_from_bytes(&mut a, ob) {
+        if let Some((mut it, _)) = next(&a, out) { let mut over = false;
+            while let Some((sp, rest)) = next(&a, it) { it = rest;
+                if let Some([_, pz, _, sol, _]) = extract5(&a, sp) { for n in [pz, sol] { if node_to_bytes_limit(&a, n, 2_000_000).is_err() { over = true; } } } }
+            if over { line.push_str(" @reveal-over-2MB"); } } } }
     o.case(&line, &format!("{} || rebuild={} lookup={} || vrem=[{}] vadd=[{}] || scanner=agrees", ar, rebuild, lookup, v_rem.join(","), v_add.join(",")));
+}
+
+
+/// a spend whose puzzle reveal shares sub-trees so heavily that its plain serialisation exceeds the
+/// 2 MB limit of `Program::from_clvm` (2^depth copies of one `leaf_len`-byte atom under a quote):
+/// `(i (q . BIG) 1 1)` returns its solution.  Accepted by full validation (the block carries the
+/// back-reference form); the trusted helpers must still report and recover it.
+pub fn c09_bigshare(o: &mut Out, depth: u32, leaf_len: usize, flags: u32) {
+    let p = pools();
+    let mut big = at(&vec![0xabu8; leaf_len]);
+    for _ in 0..depth { big = pair(big.clone(), big); }
+    let puzzle = list(vec![at(&[3]), pair(at(&[1]), big), at(&[1]), at(&[1])], nil());
+    let conds = list(vec![pair(at(&[51]), list(vec![at(&p.ids[2]), int(1)], nil()))], nil());
+    let sp = GSpend { parent: p.ids[0], puzzle, amount_atom: int(1), solution: conds, extra: nil() };
+    let g = quoted_generator(&[sp], nil(), nil());
+    let bytes = ser_backrefs(&g);
+    ORACLE_LIMIT.store(20_000_000, std::sync::atomic::Ordering::Relaxed);
+    c09_case(o, &bytes, flags);
+    ORACLE_LIMIT.store(150_000, std::sync::atomic::Ordering::Relaxed);
 }
 
 pub fn run_c09(o: &mut Out, seed: u64, thorough: bool, replay: Option<Vec<String>>) {
@@ -512,6 +541,9 @@ pub fn run_c09(o: &mut Out, seed: u64, thorough: bool, replay: Option<Vec<String
         let g = quoted_generator(&[sp], nil(), nil());
         for flags in [F_DONT_VALIDATE, F_DONT_VALIDATE | F_COST] { c09_case(o, &to_bytes(&g), flags); }
     }}
+    // shared-subtree reveals just below and above the 2 MB plain-serialisation limit
+    c09_bigshare(o, 10, 1000, F_DONT_VALIDATE);
+    c09_bigshare(o, 11, 1000, F_DONT_VALIDATE);
     let n = if thorough { 60_000 } else { 6_000 };
     for _ in 0..n {
         let sp = gen_gspends(&mut r, &p);
